@@ -174,6 +174,14 @@ pub fn inject_hook(core: &mut Core, ni: usize, t: u64, st: &mut InjState) {
             desc = format!("{} from unknown address {from_used}", KIND_NAMES[kind(&m) as usize]);
         }
         K_FOREIGN_MAGIC => {
+            if inj.synthesize {
+                // during the handshake the peer's magic is not known yet, so only packets that prove nothing are "foreign":
+                // a sync request with a nonce of its own (most of the time) or any non-handshake message. A SyncReply that
+                // echoes a genuine nonce would be a well-formed spoof.
+                if r.chance(0.7) || matches!(m.body, WBody::SyncReply { .. }) {
+                    m.body = WBody::SyncRequest { r: r.next() as u32 };
+                }
+            }
             m.magic = m.magic.wrapping_add(1 + r.below(60_000) as u16);
             desc = format!("{} with foreign magic {:#x}", KIND_NAMES[kind(&m) as usize], m.magic);
         }
@@ -373,7 +381,7 @@ pub fn cases(ctx: &Ctx) -> Vec<Case> {
         let mut rr = r.fork(0x2000_0000 + i as u64);
         let mut s = base_running(&mut rr, 200);
         s.link = Link { drop: rr.pick(&[0.0, 0.2]), dup: 0.0, base_ms: rr.pick(&[10u64, 40]), jitter_ms: 0, outages: vec![], faults: vec![], stragglers: vec![] };
-        let class = [K_STATUS, K_NEGSTART, K_RANDOM, K_WRONGSIZE, K_UNKNOWN_ADDR, K_BOMB, K_MUTATED][i % 7];
+        let class = [K_STATUS, K_NEGSTART, K_RANDOM, K_WRONGSIZE, K_UNKNOWN_ADDR, K_BOMB, K_MUTATED, K_FOREIGN_MAGIC][i % 8];
         s.inject = Some(Inject { victim: 0, from_addr: peer_addr(1), p: 1.0, after_ms: 0, until_ms: 700, class, exhaustive_from: None, synthesize: true, replay_genuine: false });
         out.push(Case { id: format!("handshake-{}-{i}", CLASS_NAMES[class as usize]), scn: s });
     }
@@ -576,7 +584,8 @@ pub fn run_case(c: &Case) -> Outcome {
         out.inconclusive("the run without injection stopped early");
         return out;
     }
-    let pre = class != K_MIXED && preprocessing_class(class);
+    // a foreign sync request during the handshake is answered (the peer's magic is not known yet): packet timing shifts
+    let pre = class != K_MIXED && preprocessing_class(class) && !(class == K_FOREIGN_MAGIC && c.id.starts_with("handshake"));
     for (a, b) in w.nodes.iter().zip(base.nodes.iter()) {
         // connection state and session state
         if a.fin.running != b.fin.running || a.fin.cs.iter().map(|c| c.0).collect::<Vec<_>>() != b.fin.cs.iter().map(|c| c.0).collect::<Vec<_>>() {
